@@ -224,7 +224,10 @@ func (l *leader) createSession() {
 	// session_manager.go:createSession
 	l.write(opNames[opSessCreate], func(off int64) *proto.WriteRequest {
 		l.sessions = append(l.sessions, off)
-		return &proto.WriteRequest{Shard: oxh.I64(shard), Puts: []*proto.PutRequest{{Key: server.SessionKey(server.SessionId(off)), Value: sessionMeta}}}
+		return &proto.WriteRequest{Shard: oxh.I64(shard), Puts: []*proto.PutRequest{{Key: server.SessionKey(server.SessionId(off)),
+			// a private copy: ProcessWrite keeps the Value backing array in the StorageEntry pool and a later
+			// Deserialize overwrites it (see NOTES.md), so request buffers must never be shared
+			Value: append([]byte(nil), sessionMeta...)}}}
 	})
 	if l.failed[len(l.failed)-1] || l.resps[len(l.resps)-1].Puts[0].Status != proto.Status_OK {
 		l.sessions = l.sessions[:len(l.sessions)-1]
@@ -687,6 +690,8 @@ func nWorkers() int {
 	return n
 }
 
+var finalsLog *os.File // debugging aid: VERIF_DUMP_FINALS=<file>
+
 var allPairs bool // R4: every (flush point, crash point) pair
 
 type pass struct {
@@ -811,6 +816,9 @@ func runPass(run *ev.Run, cfgs []config, p pass, a *agg, deadline time.Time, r6e
 				} else {
 					a.histories++
 					a.finals[sha256.Sum256([]byte(j.cfg.name+"\x00"+final))] = struct{}{}
+					if finalsLog != nil {
+						fmt.Fprintf(finalsLog, "%s|%v|%x\n", j.cfg.name, j.hist, sha256.Sum256([]byte(final)))
+					}
 				}
 				a.mu.Unlock()
 				if len(vs) == 0 {
@@ -918,6 +926,9 @@ func main() {
 		return def
 	}
 	run := ev.NewRun("C06", "model_checking")
+	if fn := os.Getenv("VERIF_DUMP_FINALS"); fn != "" {
+		finalsLog, _ = os.Create(fn)
+	}
 	if pf := os.Getenv("VERIF_PPROF"); pf != "" {
 		f, _ := os.Create(pf)
 		_ = pprof.StartCPUProfile(f)
@@ -941,6 +952,25 @@ func main() {
 			{"R5 chunk=1 (not full/, histories of length<=3)", 1, "full/", 3}}
 		budget = 22 * time.Minute
 		r6every = 10
+	}
+	if spec := os.Getenv("VERIF_PRINT_HISTORY"); spec != "" {
+		// debugging aid: VERIF_PRINT_HISTORY="<config name>|i,j,k" prints the live leader's final dump
+		parts := strings.SplitN(spec, "|", 2)
+		var h []int
+		for _, f := range strings.Split(parts[1], ",") {
+			var o int
+			fmt.Sscanf(f, "%d", &o)
+			h = append(h, o)
+		}
+		for _, c := range cfgs {
+			if c.name == parts[0] {
+				l, _ := buildLeader(c, h)
+				fmt.Println(l.dumps[len(l.log)])
+				l.close()
+			}
+		}
+		os.RemoveAll(scratch)
+		return
 	}
 	if *replay != "" {
 		code := doReplay(*replay, cfgs, passes)
